@@ -818,7 +818,7 @@ func gen(g *hx.Gen) {
 	for i := 0; i < g.N(1500, 30000); i++ {
 		genDisp(g)
 	}
-	for i := 0; i < g.N(24, 1500); i++ {
+	for i := 0; i < g.N(24, 800); i++ {
 		genChain(g)
 	}
 }
